@@ -603,6 +603,8 @@ class RunningShow:
         if self._stopped:
             return
         self.machine.show_controller.debug_log("Resuming show %s", self.show.name)
+        # a step may still be scheduled (show not paused, or not started yet): never keep two schedules
+        self._remove_delay_handler()
         self.next_step_time = self.machine.clock.get_time()
         self._run_next_step(post_events=self.show_config.events_when_resumed)
 
